@@ -14,6 +14,11 @@
    channel's Recv uses one.  The message identity is "<sender>-<seqno>" (Sprintf): a pair
    (sender, seqno) here (sender strings contain no '-').
 
+   [cstep] is libp2p's channel.Send with its publisher as an oracle: the sequence number is taken
+   first, the retransmission schedule captures the message WITH that number, then the initial
+   publish succeeds or fails; every later tick publishes the captured message again (ok / error).
+   The counter is never given back.
+
    [astep] is the atomic handler (arrival = check + filter + call at once) of DESIGN.md;
    Props/C16 relates the two at the granularity of the context check. *)
 From Coq Require Import ZArith NArith List Bool Lia.
@@ -95,6 +100,41 @@ Definition next_seqno (c : N) : N * N := let c' := (c + 1) mod w64 in (c', c').
 Fixpoint seqnos (c : N) (k : nat) : list N :=
   match k with O => [] | S k' => let (c', s) := next_seqno c in s :: seqnos c' k' end.
 
+(* ---------- channel.Send under publish faults (pkg/net/libp2p/channel.go) ----------
+     messageProto, err := c.messageProto(message)        Marshal may fail: return, nothing consumed
+     messageProto.SequenceNumber = c.nextSeqno()
+     doSend := func() error { return c.publish(messageProto) }
+     retransmission.ScheduleRetransmissions(ctx, logger, ticker, doSend, strategy)
+     return doSend()
+   A message is identified by the position of its Send among the Sends that reached nextSeqno.
+   [CRetx i ok]: one retransmission of message i (whatever the strategy, tick and goroutine
+   order; a cancelled context just means no more of them) whose publish returns ok / an error.
+   The wire log has every publish call: (message, sequence number, publisher's answer). *)
+Inductive sout := SMarshalErr | SPublished | SPublishErr.
+Inductive cop := CSend (o : sout) | CRetx (i : nat) (ok : bool).
+Record cstate := { counter : N; sched : list (nat * N); wire : list (nat * N * bool) }.
+Definition cinit (c : N) : cstate := {| counter := c; sched := []; wire := [] |}.
+Definition cstep (st : cstate) (o : cop) : cstate :=
+  match o with
+  | CSend SMarshalErr => st
+  | CSend r =>
+      let (c', s) := next_seqno (counter st) in
+      let id := length (sched st) in
+      {| counter := c'; sched := sched st ++ [(id, s)];
+         wire := wire st ++ [(id, s, match r with SPublished => true | _ => false end)] |}
+  | CRetx i ok =>
+      match nth_error (sched st) i with
+      | Some (id, s) => {| counter := counter st; sched := sched st; wire := wire st ++ [(id, s, ok)] |}
+      | None => st
+      end
+  end.
+Definition crun (st : cstate) (ops : list cop) : cstate := fold_left cstep ops st.
+(* a receiver: everything that left the sender (successful publishes) goes through the filter *)
+Definition wire_arrivals (sender : N) (w : list (nat * N * bool)) : list aop :=
+  flat_map (fun e : nat * N * bool => if snd e then [Arrive (sender, snd (fst e))] else []) w.
+Definition receiver_deliveries (sender : N) (w : list (nat * N * bool)) : list msg :=
+  snd (arun ainit (wire_arrivals sender w)).
+
 (* ---------- correspondence cases ---------- *)
 (* times are values of one logical clock incremented at every recorded event *)
 
@@ -115,7 +155,18 @@ Record handler := { h_reg : N;                    (* time Recv returned *)
                     h_deliveries : list delivery }.   (* in invocation order *)
 Record chan_case := { cc_sends : list send; cc_handlers : list handler;
                       cc_fresh_chans : list N }.  (* channel instances all of whose sends are listed *)
-Inductive case := CFilter (c : filter_case) | CChan (c : chan_case).
+
+(* (C) one long-lived libp2p channel whose publisher fails on scripted calls; a receiver channel
+   gets every successfully published message *)
+Record fault_case := {
+  fa_wire : list (N * N * bool);      (* every publish call, in order: (message by first appearance,
+                                         sequence number on the wire, publisher's answer) *)
+  fa_sends : list (option N * bool);  (* every Send call, in order: the message it published
+                                         (None: Marshal failed) and whether it returned an error *)
+  fa_delivered : list (N * N);        (* the receiver's delegate calls for this sender: (message, seqno) *)
+  fa_flushed : bool }.                (* a message of ANOTHER sender, published last, was delivered
+                                         after them: the receiver had handled everything *)
+Inductive case := CFilter (c : filter_case) | CChan (c : chan_case) | CFault (c : fault_case).
 
 Fixpoint nodup_msgs (l : list msg) : bool :=
   match l with [] => true | m :: t => negb (mem m t) && nodup_msgs t end.
@@ -228,10 +279,73 @@ Definition chan_agree (c : chan_case) : bool :=
   forallb (handler_agree (cc_sends c)) (cc_handlers c)
   && forallb (seqnos_agree (cc_sends c)) (cc_fresh_chans c).
 
+(* ---- (C): property ---- *)
+(* different messages <-> different sequence numbers, over everything the channel handed to its
+   publisher (a retransmission repeats its message's number, nobody else's) *)
+Definition wire_fresh (w : list (N * N * bool)) : bool :=
+  forallb (fun a : N * N * bool => forallb (fun b : N * N * bool =>
+    Bool.eqb (fst (fst a) =? fst (fst b)) (snd (fst a) =? snd (fst b))) w) w.
+Definition count_id (id : N) (d : list (N * N)) : nat := length (filter (fun x : N * N => fst x =? id) d).
+Definition has_ok (id : N) (w : list (N * N * bool)) : bool :=
+  existsb (fun e : N * N * bool => (fst (fst e) =? id) && snd e) w.
+Definition fault_spec (c : fault_case) : bool :=
+  wire_fresh (fa_wire c)
+  && nodupN (map snd (fa_delivered c))
+  && (if fa_flushed c
+      then forallb (fun e : N * N * bool => Nat.eqb (count_id (fst (fst e)) (fa_delivered c))
+                                     (if has_ok (fst (fst e)) (fa_wire c) then 1 else 0)) (fa_wire c)
+      else true).
+
+(* ---- (C): agreement with the model ---- *)
+Fixpoint ops_of_wire (known : nat) (w : list (N * N * bool)) : option (list cop) :=
+  match w with
+  | [] => Some []
+  | (id, _, ok) :: t =>
+      if (N.to_nat id =? known)%nat
+      then option_map (cons (CSend (if ok then SPublished else SPublishErr))) (ops_of_wire (S known) t)
+      else if (N.to_nat id <? known)%nat
+      then option_map (cons (CRetx (N.to_nat id) ok)) (ops_of_wire known t)
+      else None
+  end.
+Fixpoint wire_eqb (a : list (nat * N * bool)) (b : list (N * N * bool)) : bool :=
+  match a, b with
+  | [], [] => true
+  | (i, s, k) :: a', (j, r, l) :: b' => (N.of_nat i =? j) && (s =? r) && Bool.eqb k l && wire_eqb a' b'
+  | _, _ => false
+  end.
+Fixpoint sends_agree (k : N) (l : list (option N * bool)) (w : list (N * N * bool)) : bool :=
+  match l with
+  | [] => true
+  | (None, err) :: t => err && sends_agree k t w
+  | (Some id, err) :: t =>
+      (id =? k)
+      && match find (fun e : N * N * bool => fst (fst e) =? id) w with
+         | Some e => Bool.eqb err (negb (snd e))
+         | None => false
+         end
+      && sends_agree (k + 1) t w
+  end.
+Definition model_delivered (st : cstate) : list (N * N) :=
+  flat_map (fun m : msg => match find (fun e : nat * N => snd e =? snd m) (sched st) with
+                     | Some e => [(N.of_nat (fst e), snd m)]
+                     | None => []
+                     end) (receiver_deliveries 1 (wire st)).
+Definition fault_agree (c : fault_case) : bool :=
+  match ops_of_wire 0 (fa_wire c) with
+  | None => false
+  | Some ops =>
+      let st := crun (cinit 0) ops in
+      wire_eqb (wire st) (fa_wire c)
+      && sends_agree 0 (fa_sends c) (fa_wire c)
+      && fa_flushed c
+      && list_msg_eqb (model_delivered st) (fa_delivered c)
+  end.
+
 Definition size_ok (c : case) : bool :=
   match c with
   | CFilter f => (length (fc_calls f) <=? 400)%nat
   | CChan h => (length (cc_sends h) <=? 400)%nat && (length (cc_handlers h) <=? 64)%nat
+  | CFault f => (length (fa_wire f) <=? 400)%nat
   end.
 
 Definition judge (c : case) : verdict :=
@@ -239,6 +353,7 @@ Definition judge (c : case) : verdict :=
   match c with
   | CFilter f => decide (filter_spec f) (filter_agree f)
   | CChan h => decide (chan_spec h) (chan_agree h)
+  | CFault f => decide (fault_spec f) (fault_agree f)
   end.
 
 (* what --replay prints: per handler (or for the filter, in certificate order) the model's deliveries *)
@@ -246,4 +361,10 @@ Definition explain (c : case) : list (list msg) :=
   match c with
   | CFilter f => [snd (arun ainit (map (fun a => Arrive (f_msg a)) (fc_calls f)))]
   | CChan h => map (fun hd => map snd (log (run (init 1) (handler_schedule (cc_sends h) hd)))) (cc_handlers h)
+  | CFault f =>      (* the model's wire (message, seqno) and the receiver's deliveries (message, seqno) *)
+      match ops_of_wire 0 (fa_wire f) with
+      | None => []
+      | Some ops => let st := crun (cinit 0) ops in
+                    [map (fun e : nat * N * bool => (N.of_nat (fst (fst e)), snd (fst e))) (wire st); model_delivered st]
+      end
   end.
